@@ -750,6 +750,17 @@ impl StepOracle for FreshnessOracle {
 
 pub struct NoFreeValueOracle;
 
+fn position_shares(w: &World, s: &Store, u: usize, b: usize) -> (rf::Q, rf::Q) {
+    let ak = act::cur_account(w, s, u);
+    let Some(a) = world::try_account(s, &ak) else { return (rf::qzero(), rf::qzero()) };
+    for bal in a.lending_account.balances.iter() {
+        if bal.active != 0 && bal.bank_pk == w.banks[b].key {
+            return (rf::q(bal.asset_shares), rf::q(bal.liability_shares));
+        }
+    }
+    (rf::qzero(), rf::qzero())
+}
+
 /// (asset value, liability value) of the user's position in bank b, in native units, exact
 fn position_value(w: &World, s: &Store, u: usize, b: usize) -> (rf::Q, rf::Q) {
     let ak = act::cur_account(w, s, u);
@@ -775,17 +786,27 @@ impl StepOracle for NoFreeValueOracle {
             _ => return,
         };
         let (pn, qn) = (&c.pre_nums[b], &c.post_nums[b]);
-        if pn.asv != qn.asv || pn.lsv != qn.lsv {
-            // interest accrued inside this step: share values are not constant, outside the statement
-            tags.push("share_values_moved");
-            return;
-        }
         let bh = &c.w.banks[b];
         let ta = c.w.users[u].tokens[&bh.mint];
         let t0 = world::token_amount(&c.pre.s, &ta) as i128;
         let t1 = world::token_amount(c.post, &ta) as i128;
-        let (a0, l0) = position_value(c.w, &c.pre.s, u, b);
-        let (a1, l1) = position_value(c.w, c.post, u, b);
+        let ((a0, l0), (a1, l1)) = if pn.asv != qn.asv || pn.lsv != qn.lsv || pn.last_update != c.pre.s.now {
+            // the bank was stale: both positions are valued at the share values of the bank brought up
+            // to date by the real accrue instruction on a copy of the pre-state
+            tags.push("stale_bank_valued_at_accrued_share_values");
+            let mut t = c.pre.s.clone();
+            if !act::apply(c.w, &mut t, &Action::Accrue { b }).committed {
+                return;
+            }
+            let Some(fresh) = world::try_bank(&t, &bh.key) else { return };
+            let val = |s: &Store| {
+                let (a_sh, l_sh) = position_shares(c.w, s, u, b);
+                (a_sh * rf::q(fresh.asset_share_value), l_sh * rf::q(fresh.liability_share_value))
+            };
+            (val(&c.pre.s), val(c.post))
+        } else {
+            (position_value(c.w, &c.pre.s, u, b), position_value(c.w, c.post, u, b))
+        };
         let d_tokens = rf::qi(t1 - t0);
         let d_pos = (a1.clone() - l1.clone()) - (a0.clone() - l0.clone());
         let d_w = d_tokens.clone() + d_pos.clone();
